@@ -176,6 +176,7 @@ class Builder:
         self.leaf_rows: dict = {}  # leaf name -> list of dict tag -> value
         self.leaf_payloads: dict = {}
         self.access_log: list = []
+        self.expr_cache: dict = {}  # AST repr -> library expression object (equal ASTs share one object)
 
     def rows_of_leaf(self, leaf):
         return self.leaf_rows[leaf.name]
@@ -183,9 +184,12 @@ class Builder:
     def make_leaf(self, name):
         spec = self.leaves[name]
         eng = self.engines[spec["engine"]]
+        key_name = name
+        name = spec.get("libname", name)  # two different leaves may carry the same library name
         tags = [T(c) for c in spec["cols"]]
         rows = [dict(zip(tags, r)) for r in spec["rows"]]
         self.leaf_rows[name] = rows
+        self.leaf_rows[key_name] = rows
         kind = spec.get("kind", "normal")
         if kind == "doomed":
             return eng.make_doomed_relation(set(tags), messages=[f"{name} is doomed"], name=name)
@@ -205,7 +209,7 @@ class Builder:
                 payload = sql.Payload(tbl, columns_available={t: tbl.columns[t.qualified_name] for t in tags})
             else:
                 payload = self.db.make_table(name, tags, ins)
-            self.leaf_payloads[name] = payload
+            self.leaf_payloads[key_name] = payload
             return eng.make_leaf(set(tags), payload, name=name, min_rows=mn, max_rows=mx)
         if self.counting:
             payload = CountingRows(rows, name, self.access_log)
@@ -214,7 +218,7 @@ class Builder:
             payload = iteration.RowMapping(key, {tuple(r[k] for k in key): r for r in rows})
         else:
             payload = iteration.RowSequence(rows)
-        self.leaf_payloads[name] = payload
+        self.leaf_payloads[key_name] = payload
         if spec.get("ctor") == "raw":
             return R.LeafRelation(eng, frozenset(tags), payload, name=name, min_rows=mn, max_rows=mx)
         return eng.make_leaf(set(tags), payload, name=name)
@@ -240,6 +244,33 @@ class Builder:
         self.nodes.append((prog, rel))
         return rel
 
+    def elib(self, e):
+        """Library object for an expression AST; equal ASTs share one object within a case
+        (users build an expression once and reuse it, so cached per-object state is exercised)."""
+        k = "e" + repr(e)
+        if k not in self.expr_cache:
+            self.expr_cache[k] = elib(e)
+        return self.expr_cache[k]
+
+    def plib(self, p):
+        k = "p" + repr(p)
+        if k not in self.expr_cache:
+            self.expr_cache[k] = plib(p)
+        return self.expr_cache[k]
+
+    def sweep_expressions(self):
+        """Every expression object handed to the library in this case must still declare exactly
+        the columns it references (cached required-column sets are shared mutable objects)."""
+        from . import interp
+
+        bad = []
+        for obj in self.expr_cache.values():
+            for node in interp.subexpressions(obj):
+                if set(node.columns_required) != interp.expr_refs(node):
+                    bad.append(f"{node}: declares {sorted(map(str, node.columns_required))}, references {sorted(map(str, interp.expr_refs(node)))}")
+                    break
+        return bad
+
     def apply(self, prog, *args):
         op = prog[0]
         E = self.engines
@@ -249,19 +280,19 @@ class Builder:
             return args[0].chain(args[1])
         if op == "join":
             jopt = prog[4] if len(prog) > 4 and prog[4] else {}
-            p = plib(prog[3]) if prog[3] is not None else None
+            p = self.plib(prog[3]) if prog[3] is not None else None
             return args[0].join(args[1], p, **{k: v for k, v in (("backtrack", jopt.get("bt")), ("transfer", jopt.get("tr"))) if v is not None})
         t = args[0]
         if op == "calc":
-            return t.with_calculated_column(T(prog[2]), elib(prog[3]), **opt_kwargs(prog[4] if len(prog) > 4 else None, E))
+            return t.with_calculated_column(T(prog[2]), self.elib(prog[3]), **opt_kwargs(prog[4] if len(prog) > 4 else None, E))
         if op == "proj":
             return t.with_only_columns({T(c) for c in prog[2]}, **opt_kwargs(prog[3] if len(prog) > 3 else None, E))
         if op == "sel":
-            return t.with_rows_satisfying(plib(prog[2]), **opt_kwargs(prog[3] if len(prog) > 3 else None, E))
+            return t.with_rows_satisfying(self.plib(prog[2]), **opt_kwargs(prog[3] if len(prog) > 3 else None, E))
         if op == "dedup":
             return t.without_duplicates(**opt_kwargs(prog[2] if len(prog) > 2 else None, E))
         if op == "sort":
-            terms = [R.SortTerm(elib(e), asc) for e, asc in prog[2]]
+            terms = [R.SortTerm(self.elib(e), asc) for e, asc in prog[2]]
             return t.sorted(terms, **opt_kwargs(prog[3] if len(prog) > 3 else None, E))
         if op == "slice":
             return t[prog[2] : prog[3]]
